@@ -271,7 +271,9 @@ def run(rep, repo, tier):
         elif clipmode == "none":
           kw.update(is_quantized_clip=False, relu_upper_bound=None)
         yield "quantized_relu", kw
-      for mv in (None, F(4)):
+      # (a bound below 1 too: min() / max() of the po2 classes floor their
+      # answer at 1, the bounded relu does not)
+      for mv in (None, F(4), F(1, 2)):
         yield "quantized_relu_po2", dict(
             bits=4, max_value=mv, negative_slope=slope, use_ste=ste,
             qnoise_factor=fs)
